@@ -12,6 +12,7 @@ CONSTANTS
   Lo = 100
   Hi = 100
   Step = 1
+  RbfDepth = 4
   TightCap = FALSE
 INVARIANTS Synced TxInvariants
 CHECK_DEADLOCK FALSE
